@@ -104,6 +104,21 @@ Theorem C16_notfound :
     (~ In f (files_of tr) -> notfound_of f tr = []).
 Proof. exact (@session_notfound). Qed.
 
+(** completeness of the not-found clause: when every include statement of the workspace is reached by
+    the indexer (all well-formed enclosing statements; [all_reached]), EVERY workspace file is entered -
+    so by C16_notfound every include statement of the workspace that does not resolve has its diagnostic *)
+Theorem C16_all_entered :
+  forall (path istr : Type) (PA : PathAlg path istr) (PAok : PathAlgOk path istr)
+         (w : world path istr) fuel0 h (st : @state path istr) fuel p c st' fset root fuel' tr,
+  run fuel0 w st_init h = Done st ->
+  touch fuel w st p c = Done st' ->
+  sroot (snd st') = Some (fset, root) ->
+  index fuel' (snd st') = Done tr ->
+  (forall q c0, reach (eff w st p c) (extra w) p q -> eff w st p c q = Some c0 ->
+                NoDup (inc_sids (c_items c0)) /\ all_reached (c_items c0)) ->
+  forall f q, In (f, q) fset -> In f (files_of tr).
+Proof. exact (@session_all_entered). Qed.
+
 (** for EVERY database (any include maps): no file is entered twice, and the outline of an entered
     file is exactly the declarations of its text - once, however many paths lead to it *)
 Theorem C16_once :
@@ -183,5 +198,6 @@ Print Assumptions C16_session_terminates.
 Print Assumptions C16_reach.
 Print Assumptions C16_links.
 Print Assumptions C16_notfound.
+Print Assumptions C16_all_entered.
 Print Assumptions C16_once.
 Print Assumptions C16_index_terminates.
